@@ -217,7 +217,9 @@ def _args(case, triples):
 def _run(case, triples, pb, malformed=None, short=None):
     import robotools
 
-    cls = robotools.EvoWorklist if case["device"] == "evo" else robotools.FluentWorklist
+    from vf.lab import evo_class
+
+    cls = evo_class(len(case["triples"]) + case["M"].__hash__() % 7 + len(str(case["wash"]))) if case["device"] == "evo" else robotools.FluentWorklist
     auto_split = case.get("auto_split", True)
     wl = cls(max_volume=case["M"], auto_split=auto_split, diti_mode=case["diti"])
     if not auto_split and not malformed:
